@@ -87,7 +87,9 @@ PauliLabel({(1, <SinglePauli.X: 1>), (2, <SinglePauli.Y: 2>)}): 0.2, PauliLabel(
     def __isub__(self, other: object) -> "Operator":
         if not isinstance(other, Operator):
             return NotImplemented
-        for pauli_other, coef_other in other.items():
+        # ``other`` may be ``self``: iterate over a snapshot since cancelled terms
+        # are deleted along the way.
+        for pauli_other, coef_other in list(other.items()):
             self.add_term(pauli_other, -1 * coef_other)
         return self
 
